@@ -29,7 +29,8 @@ size_t      strmaxcpy(char* dest, char const* src, size_t Max) { /* faithful: co
 }
 size_t      strmaxcat(char* Dest, char const* Src, size_t MaxLen) { /* faithful */
     size_t d = 0, n = 0;
-    while (Dest[d]) d++;
+    while (d < MaxLen && Dest[d]) d++;               /* the destination is a string inside its buffer (else the caller already went wrong) */
+    if (d >= MaxLen) return 0;
     while (Src[n] && d + 1 < MaxLen) { Dest[d++] = Src[n++]; }
     Dest[d] = 0;
     return n;
@@ -51,8 +52,21 @@ static int mon0(void) { return 0; }
 #define as_snprintf(...) mon0()
 #define printf(...) mon0()
 #define fprintf(...) mon0()
+#ifdef VERIF_EXPAND
+/* memcpy with a symbolic length: CBMC's model is intractable here; a bounded byte loop with the same range obligations */
+static void* verif_memcpy(void* d, void const* s, size_t n) {
+    size_t i;
+    VASSERT(n == 0 || (__CPROVER_w_ok(d, n) && __CPROVER_r_ok(s, n)), "C03: memcpy stays inside source and destination objects");
+    for (i = 0; i < n && i < 40; i++) ((char*)d)[i] = ((char const*)s)[i];
+    return d;
+}
+#define memcpy(d, s, n) verif_memcpy((d), (s), (n))
+#endif
 #include "contracts/loop_defaults.h"
 #include "asmpars.c" /* the real /repo/asmpars.c */
+#ifdef VERIF_EXPAND
+#undef memcpy
+#endif
 #undef as_snprcatf
 #undef as_snprintf
 
@@ -261,6 +275,16 @@ void h_IdentifySection(void) {
  * Whatever the length of the text in front of the '{', the expansion stays inside the caller's buffer (C03: no write outside
  * allocations); the literal text is copied as far as it fits.  Bounded: buffer of 16 bytes, text of up to 24 characters. */
 #ifdef VERIF_EXPAND
+/* strcomp.c helpers used by ExpandStrSymbol, faithful for non-dynamic components */
+void StrCompMkTemp(tStrComp* pComp, char* pStr, size_t capacity) { pComp->str.p_str = pStr; pComp->str.capacity = capacity; pComp->str.dynamic = 0; pComp->Pos.StartCol = 0; pComp->Pos.Len = 0; }
+void StrCompCopySub(tStrComp* pDest, tStrComp const* pSrc, size_t Start, size_t Count) {
+    size_t l = 0, i; while (l < 40 && pSrc->str.p_str[l]) l++;
+    if (Start >= l) Count = 0; else if (Start + Count > l) Count = l - Start;
+    if (Count >= pDest->str.capacity) Count = pDest->str.capacity - 1;
+    for (i = 0; i < Count && i < 40; i++) pDest->str.p_str[i] = pSrc->str.p_str[Start + i];
+    pDest->str.p_str[Count] = 0;
+}
+void StrCompIncRefLeft(tStrComp* pComp, size_t Amount) { pComp->str.p_str += Amount; if (pComp->str.capacity > Amount) pComp->str.capacity -= Amount; }
 char* QuotPosQualify(char const* s, char Zeichen, tQualifyQuoteFnc QualifyQuoteFnc) { int i; (void)QualifyQuoteFnc; for (i = 0; i < 40 && s[i]; i++) if (s[i] == Zeichen) return (char*)s + i; return NULL; }
 void verif_EvalStrStringExpressionWithResult(const struct sStrComp* pExpr, struct sEvalResult* pResult, char* pEvalResult) {
     (void)pExpr; pResult->OK = True; pResult->Flags = eSymbolFlag_None; pEvalResult[0] = 'r'; pEvalResult[1] = 's'; pEvalResult[2] = 0;
